@@ -82,7 +82,7 @@ package absnfs
 //@ func DirCache.Get
 //@ prop C26 C21
 //@ requires dcInv(c)
-//@ modifies mapof(c.entries), lmem, lrank, llen, CachedDirEntry.listElement, clock, locks, c.hits, c.misses, extstate
+//@ modifies mapof(c.entries), lmem[c.accessList], lrank[c.accessList], llen[c.accessList], CachedDirEntry.listElement, clock, locks, c.hits, c.misses, extstate
 //@ ensures [other-lists] listFrame(c.accessList)
 //@ ensures [inv-shape] dcShape(c) && c.accessList == old(c.accessList) && c.entries == old(c.entries)
 //@ ensures [inv-fwd] dcFwd(c)
